@@ -292,10 +292,10 @@ VOID = {"br", "hr", "img", "input", "meta", "link", "wbr", "col"}
 
 
 class Node:
-    __slots__ = ("tag", "cls", "kids", "text")
+    __slots__ = ("tag", "cls", "kids", "text", "name")
 
-    def __init__(self, tag: str, cls: str = "", text: str = "") -> None:
-        self.tag, self.cls, self.kids, self.text = tag, cls, [], text
+    def __init__(self, tag: str, cls: str = "", text: str = "", name: str = "") -> None:
+        self.tag, self.cls, self.kids, self.text, self.name = tag, cls, [], text, name
 
     def all_text(self) -> str:
         if self.tag == "#":
@@ -328,7 +328,8 @@ class TreeBuilder(HTMLParser):
         self.stack = [self.root]
 
     def handle_starttag(self, tag: str, attrs: List[Tuple[str, Optional[str]]]) -> None:
-        n = Node(tag, dict(attrs).get("class") or "")
+        a = dict(attrs)
+        n = Node(tag, a.get("class") or "", name=a.get("name") or "")
         self.stack[-1].kids.append(n)
         if tag not in VOID:
             self.stack.append(n)
@@ -348,7 +349,9 @@ class TreeBuilder(HTMLParser):
         self.stack[-1].kids.append(Node("#", text=data))
 
 
-def parse_html(html: str) -> Node:
+def parse_html(html: Any) -> Node:
+    if isinstance(html, Node):
+        return html
     tb = TreeBuilder()
     tb.feed(html)
     tb.close()
@@ -512,6 +515,51 @@ def render_batch(fmt: str, cases: Sequence[Dict[str, Any]]) -> List[Dict[str, An
     return res
 
 
+def whole_run(scratch: Any, fmt: str, cases: Sequence[Dict[str, Any]]) -> List[Optional[Dict[str, Any]]]:
+    """
+    The same docstrings through a complete pydoctor run (driver, templates, files on disk): a package is written,
+    `python -m pydoctor` generates its HTML, and each function's docstring block is cut out of the module page.
+    cases: {id, docstring} (functions only).  Returns per case {html: Node, attr_html: {}, log: [...]} or None.
+    """
+    import subprocess
+    import sys
+    import shutil
+    root = scratch / f"whole_{fmt}"
+    shutil.rmtree(root, ignore_errors=True)
+    (root / "wr").mkdir(parents=True)
+    src = make_source([(f"o{c['id']}", "function", c["docstring"]) for c in cases])
+    (root / "wr" / "__init__.py").write_text(src)
+    starts, line = [], 1
+    for c, chunk in zip(cases, src.split("\ndef ")):
+        starts.append((line, c["id"]))
+        line += chunk.count("\n") + 1
+    p = subprocess.run([sys.executable, "-m", "pydoctor", f"--docformat={fmt}", f"--html-output={root / 'out'}", "--project-name=wr",
+                        "-q", "wr"], cwd=str(root), capture_output=True, text=True, timeout=900)
+    page = root / "out" / "wr.html"
+    if not page.exists():
+        raise MachineryError(f"whole run produced no page (rc={p.returncode}): {p.stdout[-500:]} {p.stderr[-500:]}")
+    logs: Dict[int, List[str]] = {}
+    for m in p.stdout.splitlines():
+        mm = re.match(r"^wr:(\d+): ", m)
+        if mm:
+            k = bisect.bisect_right(starts, (int(mm.group(1)), 10 ** 9)) - 1
+            if k >= 0:
+                logs.setdefault(starts[k][1], []).append(m)
+    tree = parse_html(page.read_text())
+    blocks: Dict[str, Node] = {}
+    for fn in tree.find_all(lambda n: n.tag == "div" and has_cls(n, "basefunction")):
+        names = [a.name for a in fn.find_all(lambda n: n.tag == "a" and n.name.startswith("wr."))]
+        body = fn.find_all(lambda n: n.tag == "div" and has_cls(n, "docstring"))
+        if names and body:
+            blocks[names[0]] = body[0]
+    shutil.rmtree(root, ignore_errors=True)
+    res: List[Optional[Dict[str, Any]]] = []
+    for c in cases:
+        b = blocks.get(f"wr.o{c['id']}")
+        res.append(None if b is None else {"html": b, "attr_html": {}, "log": logs.get(c["id"], [])})
+    return res
+
+
 # =============================================================================== the verdict (property C09)
 def contiguous(needle: Sequence[str], hay: Sequence[str]) -> bool:
     n = len(needle)
@@ -534,7 +582,9 @@ def judge(rec: Dict[str, Any], fmt: str, docstring: str, r: Dict[str, Any],
         reported = []
     if fmt == "plaintext":
         root = parse_html(r["html"])
-        if root.all_text() != docstring:
+        pre = root.find_all(lambda n: n.tag == "p" and has_cls(n, "pre"))
+        shown = pre[0].all_text() if len(pre) == 1 else root.all_text()
+        if shown != docstring or words_of(root.all_text()) != words_of(docstring):
             bad.append({"invariant": "PlaintextExact", "expected": docstring, "observed": root.all_text()})
         return bad
     ob = observe(r["html"])
